@@ -1,5 +1,6 @@
 pub mod engine;
 pub mod env;
+pub mod pipeline;
 pub mod props;
 pub mod refmodel;
 pub mod subject;
